@@ -36,13 +36,18 @@ POSITIONS3 = [
     ("Map<Map>", lambda x: ("hmap", rg.P("String"), ("bmap", rg.P("String"), x))),
 ]
 SITES = ("param", "return", "field", "channel", "event")
-DEFS = rg.struct_src("Foo", [("a", "i32")]) + rg.enum_src("Kind", [("Alpha",), ("Beta",)]) + rg.struct_src("Wrap", [("k", "Kind"), ("f", "Foo")])
+def defs(style="single"):
+    return (rg.struct_src("Foo", [("a", "i32")], derive_style=style) + rg.enum_src("Kind", [("Alpha",), ("Beta",)], derive_style=style) +
+            rg.struct_src("Wrap", [("k", "Kind"), ("f", "Foo")]))
+
+
+DEFS = defs()
 HDR = rg.PRELUDE + "use tauri::{AppHandle, Emitter, ipc::Channel};\n\n"
 
 
-def site_project(site, t, with_events=False):
+def site_project(site, t, with_events=False, style="single"):
     r = rg.rust(t)
-    src = [HDR, DEFS, rg.command_src("base_cmd", [("w", "Wrap")], "Wrap")]
+    src = [HDR, defs(style), rg.command_src("base_cmd", [("w", "Wrap")], "Wrap")]
     if site == "param":
         src.append(rg.command_src("probe", [("p", r)], "i32"))
     elif site == "return":
@@ -111,7 +116,8 @@ def run_probe(a):
             return {"blocked": "rc=%s" % g.run.rc}
         probs = analyse(g, mode)
         if probs is None:
-            return {"blocked": "output does not parse (C01)"}
+            pf = common.parse_fault(g.output)
+            return {"probs": [("module-does-not-parse " + pf[0], pf[0].split(" ")[0], pf[1], None)], "refs": 0, "files": len(g.output.mods)}
         refs = sum(len(resolve.item_refs(it)) for m in g.output.mods.values() for it in m.items if it["kind"] not in ("import", "export_all"))
         return {"probs": probs, "refs": refs, "files": len(g.output.mods)}
     finally:
@@ -177,7 +183,8 @@ def run(tier):
             for site in SITES:
                 for mode in ("none", "zod"):
                     for we in ((False, True) if tier == "thorough" else (False,)):
-                        jobs.append((cli, "%s/%s/%s" % (site, plabel, kind), site_project(site, t, we), mode,
+                        style = rg.DERIVE_STYLES[len(jobs) % len(rg.DERIVE_STYLES)]   # equivalent layouts of the derive attributes
+                        jobs.append((cli, "%s/%s/%s" % (site, plabel, kind), site_project(site, t, we, style), mode,
                                      {"site": site, "position": plabel, "kind": kind, "type": t}))
     for (label, files) in event_projects():
         for mode in ("none", "zod"):
